@@ -40,6 +40,9 @@ func aesGCMDecrypt(key, cipherText, nonce []byte) ([]byte, error) {
 		return nil, err
 	}
 
+	if len(nonce) != stream.NonceSize() {
+		return nil, errors.Errorf("invalid nonce length; length=%v", len(nonce))
+	}
 	outText, err := stream.Open(nil, nonce, cipherText, []byte(gcmAdditionData))
 	if err != nil {
 		return nil, err
